@@ -348,10 +348,12 @@ def _post_poly(ctx, call, monitor, faces_of):
         return
     ok1, ok2, dup = _approx_in(got, ref)
     if infinite:
-        # a line inside an edge line / face plane: only "no spurious point": every returned point must still be one of the isolated reference hits
-        # or lie on the line and the polytope -- judged for duplicates and for membership of the isolated hits
-        ok = not dup and ok2
-        why = "a common point is returned twice" if dup else "an isolated common point is missing"
+        # a line inside an edge line / face plane: "no spurious point": every returned point must lie on both operands (exact membership),
+        # no point may be returned twice and the isolated hits of the faces that are crossed properly must be present
+        spurious = [gp for gp in got if not (_on_other(gp, okind, o) and any(_on_face(pe, gp, dim) for pe in polys))]
+        ok = not dup and ok2 and not spurious
+        why = "a common point is returned twice" if dup else "an isolated common point is missing" if not ok2 else \
+            f"a returned point does not lie on both operands: {[[float(x) for x in gp] for gp in spurious[:2]]}"
         ctx.judge(monitor, ok, ops, what=f"{call.name} (operands share a whole edge/face line): {why}", op=call.name, feat=feat, nontrivial=True)
         return
     ok = ok1 and ok2 and not dup
@@ -359,6 +361,23 @@ def _post_poly(ctx, call, monitor, faces_of):
     ctx.note((monitor, f"{okind}:dim{dim}:{len(ref)}pts"))
     ctx.judge(monitor, ok, ops, what=f"{call.name}({okind}): {why} (returned {len(got)}, exact {len(ref)})", op=call.name, feat=feat, nontrivial=True,
               expected=[[float(x) for x in p] for p in ref], observed=[[float(x) for x in p] for p in got])
+
+
+def _on_other(p, okind, o):
+    if okind == "segment":
+        return bool(on_segment(p, o))
+    return _on_span(p, o)
+
+
+def _on_face(poly_e, p, dim):
+    V = [_vec(v) for v in poly_e]
+    if dim == 2:
+        from .c16 import pip_exact
+
+        if p[-1] == 0:
+            return False
+        return pip_exact([[x / v[-1] for x in v[:-1]] for v in V], [x / p[-1] for x in p[:-1]])
+    return _pip3(V, p)
 
 
 def post_polygon_intersect(ctx, call):
@@ -527,6 +546,33 @@ def g_solids(ctx, rng, i):
     _try(face.intersect, g.Line(g.Point(np.append(o, 1)), g.Point(np.append(o + [s[0], s[1], 0], 1))))
     _try(face.intersect, g.Line(g.Point(np.append(o + [9, 9, 1], 1)), g.Point(np.append(o + [9, 9, -1], 1))))
     _try(face.intersect, g.Line(g.Point(np.append(o, 1)), g.Point(np.append(o + [0, 0, 1], 1))))  # through a vertex
+    # segments inside a face plane / along an edge that stop before the next face (no point beyond the segment may be reported)
+    if i % 3 != 2:
+        a_ = np.append(2 * o + [s[0], 0, 0], 2)  # midpoint of the edge from o along x
+        _try(solid.intersect, g.Segment(g.Point(a_), g.Point(a_ + np.array([6 * s[0], 0, 0, 0]))))
+        _try(solid.intersect, g.Segment(g.Point(a_), g.Point(a_ + np.array([s[0] // 2 if s[0] > 1 else 1, 0, 0, 0]) * 0 + np.array([0, 0, 0, 0]))) if False else None)
+        b_ = np.append(2 * o + [s[0], s[1], 0], 2)  # centre of the bottom face
+        _try(solid.intersect, g.Segment(g.Point(b_), g.Point(b_ + np.array([8 * s[0], 0, 0, 0]))))
+        _try(solid.intersect, g.Segment(g.Point(b_ - np.array([8 * s[0], 0, 0, 0])), g.Point(b_)))
+    # polygons that are the result of a transformation (cached supporting plane must follow): translate / rotate, then intersect
+    shift = gen.coords(rng, (3,), 3, "int")
+    moved = _try(lambda: face + g.Point(*shift))
+    if moved is not None:
+        c2 = c + np.append(2 * shift, 0)
+        _try(moved.intersect, g.Line(g.Point(c2 + np.array([0, 0, 2, 0])), g.Point(c2 - np.array([0, 0, 2, 0]))))
+        _try(moved.intersect, g.Segment(g.Point(c2 + np.array([0, 0, 2, 0])), g.Point(c2 - np.array([0, 0, 2, 0]))))
+        _try(g.Segment(g.Point(c2 + np.array([0, 0, 2, 0])), g.Point(c2 - np.array([0, 0, 2, 0]))).intersect, moved)
+    tm = gen.invertible_int_matrix(rng, 4, 1, affine=True)
+    img = _try(lambda: g.Transformation(tm) * face)
+    if img is not None and R.is_dyadic(img.array, 40, 2 ** 20):
+        V = np.asarray(img.array, dtype=float)
+        cen = V.sum(axis=0)
+        nrm = np.cross(V[1, :3] / V[1, 3] - V[0, :3] / V[0, 3], V[2, :3] / V[2, 3] - V[0, :3] / V[0, 3])
+        if np.any(nrm != 0):
+            pa = np.append(cen[:3] / cen[3] * 4 + nrm * 4, 4.0)
+            pb = np.append(cen[:3] / cen[3] * 4 - nrm * 4, 4.0)
+            if R.is_dyadic(pa, 40, 2 ** 20):
+                _try(img.intersect, g.Line(g.Point(pa), g.Point(pb)))
 
 
 GROUPS = [
